@@ -21,9 +21,13 @@ def bounded_wait_until_idle(c: Ctx) -> list[str]:
     why = []
     tparam = 'timeout'
     derived = {tparam}
-    for n in own_nodes(u.node):
-        if isinstance(n, ast.Assign) and isinstance(n.targets[0], ast.Name) and any(isinstance(x, ast.Name) and x.id in derived for x in ast.walk(n.value)):
-            derived.add(n.targets[0].id)
+    grew = True
+    while grew:  # (to a fixed point: the order in which assignments are visited is not the order in which they run)
+        grew = False
+        for n in own_nodes(u.node):
+            if isinstance(n, ast.Assign) and isinstance(n.targets[0], ast.Name) and n.targets[0].id not in derived and any(isinstance(x, ast.Name) and x.id in derived for x in ast.walk(n.value)):
+                derived.add(n.targets[0].id)
+                grew = True
     for a in awaits_of(u):
         v = a.value
         if isinstance(v, ast.Call) and call_name(v) == 'wait_for':
